@@ -1,0 +1,35 @@
+//go:build verif
+
+package memory
+
+import "github.com/paulsonkoly/calc/types/value"
+
+// VerifState is a read-only snapshot of the bookkeeping of a memory (build tag verif).
+type VerifState struct {
+	SP         int // stack pointer
+	Frames     int // number of call frames
+	Closures   int // depth of the closure stack
+	StackLen   int // len of the stack slice
+	StackCap   int // cap of the stack slice
+	ClosureCap int // cap of the closure slice
+}
+
+// VerifState returns the bookkeeping of m.
+func (m *Type) VerifState() VerifState {
+	return VerifState{SP: m.sp, Frames: len(m.fp) / 2, Closures: len(m.closure), StackLen: len(m.stack), StackCap: cap(m.stack), ClosureCap: cap(m.closure)}
+}
+
+// VerifFP returns a copy of the frame pointer list (fp, le pairs).
+func (m *Type) VerifFP() []int { return append([]int{}, m.fp...) }
+
+// VerifStack returns a copy of the live part of the stack.
+func (m *Type) VerifStack() []value.Type { return append([]value.Type{}, m.stack[:m.sp]...) }
+
+// VerifGlobals returns the names of the defined globals.
+func (m *Type) VerifGlobals() []string {
+	r := make([]string, 0, len(m.global))
+	for k := range m.global {
+		r = append(r, k)
+	}
+	return r
+}
